@@ -122,6 +122,20 @@ theorem declare_order_irrelevant (tbl : List OptSpec) (ps : List Parser) (d d' :
       | error e => rw [declare_err h]
     rw [e1 d hok, e1 d' hok']
 
+/-- **The driver's one-pass registration is the code's loop.** In every state reached by declarations,
+declaring one more command with all parents handled at once (`declare`, what is executed and what the
+theorems are about) gives the same result — success or `AssertionError`, names, dependents — as the loop of
+`_init_multicmd_parser`: parent by parent, each time every parser that lists the parent, with the
+idempotent `register_dependent`. -/
+theorem declare_follows_code {tbl : List OptSpec} {pre : List Decl} {ps : List Parser} (hinv : Inv tbl pre ps)
+    (d : Decl) : declareByParent tbl ps d = declare tbl ps d := by
+  by_cases hfresh : d.name ∈ names ps
+  · simp [declareByParent, declare, hfresh]
+  · apply declareByParent_eq
+    intro q hq hm
+    have := ((hinv.deps q hq d.name).mp hm).right_mem
+    exact hfresh (hinv.names ▸ this)
+
 /-! ### option tables -/
 
 /-- **The option table of a parser.** In a reachable state a spec is in the table of the parser `q`
@@ -391,6 +405,8 @@ private theorem std_single {nl : Bool} {q : Parser} {extra : List OptSpec} (he :
       | 1, hu => simp [hk] at hu
       | n + 3, hu => simp [hk] at hu
     | value => simp [hk] at hu
+    | flagOff => simp [hk] at hu
+    | const v => simp [hk] at hu
     | help => simp [hk] at hu
     | pos n => simp [hk] at hu
 
@@ -659,7 +675,7 @@ example : ∃ st, Reach false none dsDiamond addsDiamond st := by
 
 /-- … and its dependents maps are the descendant sets, in declaration order -/
 example : (match stDiamond with
-      | .ok st => st.parsers.map (fun q => (q.name, q.deps))
+      | .ok st => st.parsers.map (fun q => (q.name, q.deps.reverse))
       | .error _ => []) =
     [(n "a", [n "b", n "c", n "d", n "e"]), (n "b", [n "d", n "e"]), (n "c", [n "d", n "e"]),
      (n "d", [n "e"]), (n "o", [n "e"]), (n "e", [])] := by decide +kernel
